@@ -76,8 +76,8 @@ fn u32_of(s: &mut Side) -> Result<(u32, u64), E> {
 }
 fn fill_of(s: &mut Side, n: usize) -> Result<(Vec<u8>, u64), E> {
     s.arm();
-    if n > 4096 {
-        // a very long fill legitimately needs many readings (at most 255 rounds + priming, 3 readings each)
+    if n > 256 {
+        // a long fill legitimately needs many readings (at most 255 rounds + priming, 3 readings each)
         s.g.jitter_ref().unwrap().set_cap(s.reads() + STUCK_CAP + (n as u64 / 8 + 1) * (1 + 3 * 256));
     }
     let r0 = s.reads();
@@ -189,7 +189,30 @@ fn out_step(real: &mut Side, twin: &mut Side, tr: &mut Track, op: &Op, i: usize,
                 }
             }
             tr.pending = None;
-            let (w, tused) = fill_of(twin, n)?;
+            // the twin never calls fill_bytes: it makes the fresh collections the documented composition
+            // consists of (n/8 values, then one more value for a tail of 5..7 bytes or one next_u32 for
+            // a tail of 1..4 bytes), so every 8-byte chunk of the real call is held against a collection
+            // of its own
+            let (w, tused) = {
+                let mut bytes = Vec::with_capacity(n + 8);
+                let mut used_t = 0u64;
+                for _ in 0..n / 8 {
+                    let (v, u) = u64_of(twin)?;
+                    bytes.extend_from_slice(&v.to_le_bytes());
+                    used_t += u;
+                }
+                let tail = n % 8;
+                if tail > 4 {
+                    let (v, u) = u64_of(twin)?;
+                    bytes.extend_from_slice(&v.to_le_bytes()[..tail]);
+                    used_t += u;
+                } else if tail > 0 {
+                    let (v, u) = u32_of(twin)?;
+                    bytes.extend_from_slice(&v.to_le_bytes()[..tail]);
+                    used_t += u;
+                }
+                (bytes, used_t)
+            };
             let collections = ((n + 7) / 8) as u64;
             if used < tr.rounds * collections {
                 return Err(E::End(viol("C16/fresh_collection_too_few_reads", key("fill_bytes"), format!("op #{}: fill_bytes({}) read the timer {} times, needs at least rounds*{} = {}", i, n, used, collections, tr.rounds * collections))));
